@@ -301,3 +301,24 @@ def run_spec(p, res):
                         if nbad == 1:
                             v("llr-form", f"un-batched 1-D input, sigma2={s2}: received {y:.4f} bit {j}: LLR={lj:.6g}, expected {want:.6g}", {"layout": "1d", "s2": s2})
     res.sample({"scheme": scheme, "cfg": cfg, "points_hard": len(Yh), "points_soft": len(Ys), "c": base})
+
+
+# ----------------------------------------------------------------------------- spelling equivalence of the constructors behind this property
+# (positional / keyword / mixed spellings of one legal call configure the same object; shared helper kmc/spelling.py)
+_cases0, _execute0, _component0 = cases, execute, component_of
+
+
+def cases(tier, seed):  # noqa: F811
+    yield from _cases0(tier, seed)
+    yield f"{PID}|spelling", {"kind": "spelling", "tier": tier}
+
+
+def execute(p, res):  # noqa: F811
+    if p.get("kind") == "spelling":
+        from kmc import spelling
+        return spelling.run(PID, res)
+    return _execute0(p, res)
+
+
+def component_of(p):  # noqa: F811
+    return "spelling" if p.get("kind") == "spelling" else _component0(p)
